@@ -8,7 +8,7 @@ use clvm_rs::allocator;
 use clvm_rs::allocator::{Allocator, NodePtr};
 
 use clvm_rs::error::EvalErr;
-use num_bigint::ToBigInt;
+use num_bigint::{Sign, ToBigInt};
 
 use sha2::Digest;
 use sha2::Sha256;
@@ -547,16 +547,25 @@ pub fn run_step(
                         Rc::new(step_.clone()),
                     ));
                 }
+                // The bytes of an atom used as a path are read as an unsigned
+                // number, as the consensus evaluator reads them, so redundant
+                // sign extension bytes (0xff80) aren't lost.
                 SExp::QuotedString(l, _, v) => {
                     step = RunStep::Step(
-                        Rc::new(SExp::Integer(l.clone(), number_from_u8(v))),
+                        Rc::new(SExp::Integer(
+                            l.clone(),
+                            Number::from_bytes_be(Sign::Plus, v),
+                        )),
                         context.clone(),
                         parent.clone(),
                     );
                 }
                 SExp::Atom(l, v) => {
                     step = RunStep::Step(
-                        Rc::new(SExp::Integer(l.clone(), number_from_u8(v))),
+                        Rc::new(SExp::Integer(
+                            l.clone(),
+                            Number::from_bytes_be(Sign::Plus, v),
+                        )),
                         context.clone(),
                         parent.clone(),
                     );
